@@ -24,7 +24,7 @@ ASSUMPTIONS = [LEVEL_NOTE, "the event recorder takes no lock: one atomic counter
 def _jobs(tier):
     if tier == "quick":
         return [("tsan", 20, 300, 16)] * 10 + [("plain", 30, 2000, 16)] * 10
-    return [("tsan", 40, 1500, 16)] * 150 + [("plain", 60, 5000, 16)] * 300
+    return [("tsan", 40, 1500, 16)] * 40 + [("plain", 60, 5000, 16)] * 80
 
 
 def plan(tier):
